@@ -647,7 +647,10 @@ def job_sizes(ctx, k):
     def rows(n, S, shift):
         return np.array([S[(shift + 7 * j) % len(S)] for j in range(n)])
     scalings = [('unit', None, None), ('first scaled', np.array([3.0, 0.5, 7.0, 1.0, 0.25]), None), ('second scaled', None, np.array([0.5, 2.0, 1.0, 0.75, 4.0])),
-                ('both scaled', np.array([3.0, 0.5, 7.0, 1.0, 0.25]), np.array([0.5, 2.0, 1.0, 0.75, 4.0]))]
+                ('both scaled', np.array([3.0, 0.5, 7.0, 1.0, 0.25]), np.array([0.5, 2.0, 1.0, 0.75, 4.0])),
+                # magnitudes far from one (the metrics normalise their arguments): rows of 1e-9, 1e-10, 1e-100, 1e+100 next to ordinary ones
+                ('second tiny/huge', None, np.array([1.0, 1e-9, 5.0, 1e-10, 1e-3])), ('first tiny/huge', np.array([1e-100, 1.0, 1e100, 1e-8, 2.0]), None),
+                ('both tiny/huge', np.array([1e-9, 1e50, 1.0, 1e-12, 1e-100]), np.array([1e100, 1e-9, 1e-10, 1.0, 1e-50]))]
     for n in SIZES:
         Q1u, Q2u = rows(n, G, 0), rows(n, H, 3)
         for sn, s1, s2 in scalings:
@@ -664,10 +667,12 @@ def job_sizes(ctx, k):
                     if j < 0:
                         continue
                     sgl = float(fn(Q1[j].copy(), Q2[j].copy()))
-                    ref = CF[m](2.0 * rq.qangle(rq.qunit(Q1u[j]), rq.qunit(Q2u[j]))) if m in CF else sgl
+                    ref = CF[m](rq.qangle(rq.qunit(Q1u[j]), rq.qunit(Q2u[j]))) if m in CF else sgl
                     ctx.evals += 1
                     if not (abs(V[j] - sgl) <= 1e-8):
                         ctx.fail(f'{m}[N-row]: row j = the single call on pair j (all stack sizes, unit and non-unit rows)', f'N={n} rows={sn} j={j} k{k}', V[j], sgl, 1e-8)
+                    if not (abs(sgl - ref) <= 1e-7):
+                        ctx.fail(f'{m}: closed form of the relative angle whatever the magnitudes of the two quaternions (the metric normalises them)', f'N={n} rows={sn} j={j} k{k}', sgl, ref, 1e-7)
             ctx.seen(('sizes', n, sn))
         R1 = np.array([rq.R(q) for q in Q1u]); R2 = np.array([rq.R(q) for q in Q2u])
         V = _call_n(ctx, 'chordal', R1, R2, lambda: f'N={n} k{k}')
@@ -676,6 +681,27 @@ def job_sizes(ctx, k):
             ctx.evals += 1
             if not (abs(V[j] - ref) <= 1e-12):
                 ctx.fail('chordal[N-row]: row j = |R1_j - R2_j|_F (all stack sizes)', f'N={n} j={j} k{k}', V[j], ref, 1e-12)
+        if 3 <= n <= 65:
+            # stacks with missing samples (NaN rows / matrices) in either argument: where the N-row call answers, every OTHER row is the distance of its own pair
+            gaps = sorted({1, n // 2, n - 2} & set(range(n - 1)))
+            for which in ('first', 'second'):
+                for m in QM + ('chordal',):
+                    X1, X2 = (Q1u.copy(), Q2u.copy()) if m != 'chordal' else (R1.copy(), R2.copy())
+                    (X1 if which == 'first' else X2)[gaps] = np.nan
+                    try:
+                        with np.errstate(all='ignore'):
+                            Vn = np.asarray(getattr(M, m)(X1.copy(), X2.copy()), float)
+                    except Exception:
+                        ctx.outcome(('nan-rows-refused', m)); continue
+                    if Vn.shape != (n,):
+                        ctx.fail(f'{m}[N-row] with missing (NaN) samples returns one value per row', f'N={n} gaps={gaps} in {which} k{k}', list(Vn.shape), [n]); continue
+                    for j in range(n):
+                        if j in gaps:
+                            continue
+                        sgl = float(getattr(M, m)((Q1u if m != 'chordal' else R1)[j].copy(), (Q2u if m != 'chordal' else R2)[j].copy()))
+                        ctx.evals += 1
+                        if not (abs(Vn[j] - sgl) <= 1e-8):
+                            ctx.fail(f'{m}[N-row]: rows next to a missing (NaN) sample keep the distance of their own pair', f'N={n} gaps={gaps} in {which} j={j} k{k}', Vn[j], sgl, 1e-8)
         V0 = _call_n(ctx, 'chordal', R1, R1, lambda: f'N={n} same k{k}')
         ctx.evals += 1
         if not np.all(V0 == 0.0):
